@@ -213,8 +213,7 @@ def buffer_mut_arg(t):
     return any(a["k"] in ("copy", "move") and a["p"]["ty"] == "&mut mem_writer::Buffer" for a in t["args"])
 
 
-def rule_count_array(ctx):
-    R = "C01/count-array"
+def rule_count_array(ctx, R="C01/count-array"):
     n_ok = 0
     for fn in LIST_STREAMS:
         b = ctx.body(R, fn)
